@@ -58,7 +58,8 @@ def main(tier, seed):
     ass = core.standard_proof_phase(run, "C01", gen.gen_ops, "PV.Props.C01", extra_targets=["theories/Valid/Diff.vo"])
     rng = run.rng
     n = 70 if tier == "quick" else 1500
-    progs = load_corpus("clean") + [(f"gen/{i}", p) for i, p in enumerate(progen.generate(rng, n))]
+    from .. import idioms
+    progs = load_corpus("clean") + idioms.programs(rng) + [(f"gen/{i}", p) for i, p in enumerate(progen.generate(rng, n))]
     vn_all = list(pipeline.VECTORS)
     budget = [2 if tier == "quick" else 10]
     feats = {}
